@@ -347,20 +347,29 @@ def run_reject(case):
         allp |= {'Junk', 'acl', 'Versionid', ''}
         table = {'upload': TransferManager.ALLOWED_UPLOAD_ARGS, 'download': TransferManager.ALLOWED_DOWNLOAD_ARGS,
                  'copy': TransferManager.ALLOWED_COPY_ARGS, 'delete': TransferManager.ALLOWED_DELETE_ARGS}
-        for method, allowed in table.items():
-            for a in sorted(allp):
-                if a in allowed:
-                    continue
-                before = len(h.s3.calls)
-                err, calls = h.run(method, 'single', {a: 'x'}, False)
-                stats['reject_cells'] += 1
-                keys.add(('reject', method, a))
-                if err is None or err[0] != 'submit' or not isinstance(err[1], ValueError):
-                    viol.append(V(f'manager.{method}: extra_args name {a!r} is outside the allow-list but was not rejected at call time '
-                                  f'({err!r})', sym='not-rejected', front_end='manager', method=method, arg=a))
-                if len(h.s3.calls) != before:
-                    viol.append(V(f'manager.{method}: requests were issued although {a!r} is not allowed', sym='request-before-reject',
-                                  front_end='manager', method=method, arg=a))
+        # twice on the SAME manager: first fresh, then after every method has been used with each of its own allowed arguments (what
+        # is legal for one method must not become acceptable to another)
+        for history in (False, True):
+            if history:
+                for method, allowed in table.items():
+                    for a in allowed:
+                        shp = find_shape(a)
+                        h.run(method, 'single', {a: value_for(a, shp) if shp is not None else f'vf-{a}'}, False)
+            for method, allowed in table.items():
+                for a in sorted(allp):
+                    if a in allowed:
+                        continue
+                    before = len(h.s3.calls)
+                    err, calls = h.run(method, 'single', {a: 'x'}, False)
+                    stats['reject_cells'] += 1
+                    keys.add(('reject', method, a, history))
+                    if err is None or err[0] != 'submit' or not isinstance(err[1], ValueError):
+                        viol.append(V(f'manager.{method}: extra_args name {a!r} is outside the allow-list but was not rejected at call time '
+                                      f'({err!r})' + (' after the other methods had been used with it on the same manager' if history else ''),
+                                      sym='not-rejected', front_end='manager', method=method, arg=a, after_history=history))
+                    if len(h.s3.calls) != before:
+                        viol.append(V(f'manager.{method}: requests were issued although {a!r} is not allowed', sym='request-before-reject',
+                                      front_end='manager', method=method, arg=a, after_history=history))
     finally:
         h.close()
     return viol, stats, keys
